@@ -1652,7 +1652,7 @@ class ConfigInformation:
                     logger.info("Executing init task %s", type(init_task))
                     init_task.execute()
             else:
-                return o, pre_tasks, pre_task + init_tasks
+                return o, pre_tasks + init_tasks
 
         return o
 
